@@ -353,6 +353,8 @@ void serve_one(Make&& make, const std::string& gid, const std::vector<Job>& jobs
         o += "{\"diag\":"; jstr(o, ds.str()); o += ",\"g\":"; jstr(o, gid); o += "}\n";
     }
     fwrite(o.data(), 1, o.size(), out);
+    // a table with a reduce/reduce cell has documented-undefined behaviour (the cell's rule is never set): never run it
+    if (o.find("[\"rr\",") != std::string::npos && !getenv("VERIF_RUN_RR")) return;
     std::string prefix = gid + ":";
     for (const auto& j : jobs)
     {
